@@ -902,6 +902,16 @@ func (a *Array) notifyParentIfNeeded() error {
 	}
 	if !found {
 		a.parentUpdater = nil
+
+		// The parent no longer holds this child.  If the root slab is still marked as inlined,
+		// this handle holds an outdated slab object (the parent's slab was evicted from the read
+		// cache and decoded again before the child was removed or overwritten, so the parent
+		// uninlined a different object).  A detached child must be a stand-alone stored slab:
+		// otherwise its changes are never stored, and a root slab that splits afterwards
+		// can't be encoded.
+		if a.root.Inlined() {
+			return a.root.Uninline(a.Storage)
+		}
 	}
 	return nil
 }
